@@ -68,11 +68,6 @@ Proof.
     - eapply dict_combine_err; eauto. }
   destruct (ttype t) eqn:Ety.
   all: try (apply COMB; rewrite <- Ety; apply term_symbol_wf; [exact Ht | congruence]).
-  - (* FUNCTION *)
-    destruct (mem_string (tname t) functions).
-    + apply IH; assumption.
-    + apply IH; [|exact Hr]. apply all_wf_set; [exact Hd|].
-      rewrite <- Ety. apply term_symbol_wf; [exact Ht | congruence].
   - (* VERBATIM *) apply IH; assumption.
 Qed.
 
